@@ -333,6 +333,7 @@ pub fn rate_of(a: &ArrSpec) -> f64 {
         ArrSpec::Sum { a, b } => rate_of(a) + rate_of(b),
         ArrSpec::VecOf { items } | ArrSpec::SliceOf { items } => items.iter().map(rate_of).sum(),
         ArrSpec::FromTrace { trace, .. } => trace.len() as f64 / (trace.last().copied().unwrap_or(1).max(1)) as f64,
+        ArrSpec::Poisson { rate_milli, .. } => *rate_milli as f64 / 1000.0,
         ArrSpec::CurveFromIter { vals, extrapolating } => rate_of(&ArrSpec::Curve { dmin: running_max(vals), extrapolating: *extrapolating }),
     }
 }
